@@ -6,36 +6,43 @@ from vlib import core
 LEVEL = "proof"
 MANIFEST = dict(
     cat="proof",
-    tech="Coq proofs about a transcription of the permutahedral-representation iterators and of locate_point "
-         "(unbounded: vertex count/distinctness, barycentric characterisation and uniqueness of the located simplex, "
-         "translation invariance; bounded to ambient dimension <= 4 by vm_compute + translation invariance: face/coface "
-         "lattice consistency) + differential correspondence with the C++ on every simplex around a vertex",
-    text="The Gallina model follows Vertex_iterator, face_from_indices/Face_iterator, Coface_iterator (integer combinations "
-         "x ordered set partitions), is_face_of and locate_point (floor, fractional parts, descending sort, grouping). "
-         "Theorems for every dimension: a canonical k-simplex has k+1 distinct vertices; the located simplex has the point "
-         "as strictly positive convex combination of its vertices (weights sum to one) and is the only such simplex; "
-         "faces/cofaces/is_face_of commute with translations.  For ambient dimension <= 4 (bound in the statement): faces "
-         "are exactly the binomial number of distinct vertex subsets and recognised by is_face_of; cofaces are valid, of the "
-         "requested dimension, contain the simplex and list it among their faces, and every simplex is enumerated among the "
-         "cofaces of each of its faces.  The model is tied to the C++ by running both on all simplices around a vertex "
-         "(d<=3 quick, d<=4 thorough, samples in d=5), all pairs for is_face_of, and dyadic points in the relative interior "
-         "of every simplex of every dimension with scales, affine maps and the Coxeter matrix.",
+    tech="Coq proofs, for every ambient dimension, about a transcription of the permutahedral-representation iterators, "
+         "is_face_of and locate_point (face/coface lattice consistency, barycentric characterisation and uniqueness of the "
+         "located simplex, translation invariance; the lattice clauses additionally by vm_compute for dimension <= 4) + "
+         "differential correspondence with the C++ on every simplex around a vertex",
+    text="The Gallina model follows Vertex_iterator, Combination_iterator, face_from_indices/Face_iterator, "
+         "Integer_combination_iterator, Coface_iterator::update_value, the Set_partition/Permutation state machines of "
+         "Ordered_set_partition_iterator, is_face_of and locate_point (floor, fractional parts, descending sort, grouping). "
+         "Theorems, all unbounded in the dimension: a canonical k-simplex has k+1 distinct vertices; face_range(k) has "
+         "binom(dim+1,k+1) elements, all valid k-simplices with distinct vertex sets inside the simplex and recognised by "
+         "is_face_of; every enumerated coface is a valid simplex of the requested dimension containing the simplex, listing it "
+         "among its faces, without repetition, and every simplex is enumerated among the cofaces of each of its faces; "
+         "is_face_of decides vertex-set inclusion; the located simplex has the point as strictly positive convex combination "
+         "of its vertices (weights sum to one), is canonical, and is the only such simplex; faces/cofaces/is_face_of commute "
+         "with translations.  The model is tied to the C++ by running both on all simplices around a vertex (d<=4, d=5 in the "
+         "thorough tier, samples in d=5/6), all ordered pairs of the star for is_face_of, the helper iterators in enumeration "
+         "order, and dyadic points built in the relative interior of every simplex of every dimension under scales, matrices, "
+         "offsets and the Coxeter matrix; cartesian_coordinates and barycenter are compared exactly.",
     note="Trusted: Coq kernel, extraction + OCaml driver, the hand transcription (validated by the differential run), g++/Eigen. "
-         "Not proved unbounded (kept as *_full definitions): the face/coface lattice clauses in arbitrary dimension. "
-         "Ordered_set_partition_iterator is modelled by the set it enumerates (order of cofaces is free). The 1e-9 tolerance "
-         "of locate_point is replaced by exact comparison; inputs keep fractional parts either equal or >= 2^-24 apart. "
-         "For non-diagonal matrices (QR solve in floating point) only points whose preimage has no integer coordinate are compared.",
+         "Coface_iterator's model draws the ordered set partitions from the set-level enumeration `osp`; the state machine "
+         "`osp_iter` is proved to enumerate that set only for n <= 5 (by computation) and compared with the C++ for n <= 6. "
+         "The 1e-9 tolerance of locate_point is replaced by exact comparison on inputs whose fractional parts are equal or "
+         ">= 2^-24 apart; on numerically unstable inputs (integer coordinates through a QR solve, 2^-40 perturbations) only "
+         "containment within 1e-9 is required.  The Coxeter matrix itself (eigen-decomposition) is not modelled: points are "
+         "mapped through the matrix the library reports.  Non-canonical inputs (d outside the last part) are out of scope.",
     ref="design/C20.md")
 CORRESPONDENCE = "coq/C20_Model.v (extracted: ocaml/c20_oracle.ml) vs harness/c20_drv.cpp on identical operation lines"
 TRUSTED = [
-    "Coq 8.16.1 kernel (coqc, full .vo build); vm_compute used in the bounded theorems (ambient dimension <= 4, bound in the statement) and Examples",
+    "Coq 8.16.1 kernel (coqc, full .vo build); vm_compute used only in the theorems whose statement carries a bound (ambient dimension <= 4, "
+    "osp_iter n <= 5) and in Examples",
     "extraction (ExtrOcamlBasic only; Z/positive/Q/nat stay inductive) + OCaml 4.13.1 + ocaml/prelude.ml, ocaml/c20_oracle.ml",
     "hand-written model coq/C20_Model.v of Vertex_iterator, face_from_indices, Combination_iterator, Integer_combination_iterator, "
-    "Coface_iterator::update_value, is_face_of, locate_point, cartesian_coordinates, barycenter; Ordered_set_partition_iterator "
-    "modelled by the set it enumerates; tied to the C++ by differential runs, not by translation",
+    "Coface_iterator::update_value, Set_partition_iterator, Permutation_iterator, is_face_of, locate_point, cartesian_coordinates, "
+    "barycenter; tied to the C++ by differential runs, not by translation",
     "harness/c20_drv.cpp, g++ 12.2, Eigen 3 (ColPivHouseholderQR, SelfAdjointEigenSolver), props/c20.py generators and canonicalisation",
-    "un-formalised mathematics: the Freudenthal-Kuhn subdivision is a triangulation of R^d (only existence and uniqueness of the simplex "
-    "containing a point in its relative interior are proved); an invertible affine map carries convex combinations to convex combinations",
+    "un-formalised mathematics: that the simplices cover R^d and meet face to face is only proved in the form 'every rational point lies in "
+    "the relative interior of exactly one canonical simplex'; invertibility of the matrix (the preimage is supplied by the generator and "
+    "checked exactly, M x/scale + offset = p)",
 ]
 ASSUMPTIONS = [
     "simplices are in the library's canonical form: ordered partition of {0..d}, all parts non-empty, d in the last part",
